@@ -1151,6 +1151,20 @@ def gen_backup_stress(rng, tier):
     for i in range(len(sim.refs) - 1):
         sim.lines.append('close %d' % (i + 1))
         sim.refs[i] = 0
+    if rng.random() < 0.35:
+        # the items the backup walks over were deleted in a LATER epoch and are pinned only by that later snapshot,
+        # which is released in the middle of the backup (in a gap where the backup holds no barrier token)
+        dels = sorted(set(keys[1:6] + rng.sample(keys, nk // 2)))
+        for k in dels:
+            sim.lines.append('del %d %d' % (sim.w(), k))
+        sim.lines.append('snap')
+        sim.refs.append(1)
+        b = len(sim.refs)
+        sim.lines.append('store %d conc=%d release=%d' % (s + 1, rng.choice((1, 1, 2)), b))
+        sim.lines.append('gcwait')
+        sim.lines.append('load conc=%d pre=%d' % (rng.choice((1, 4)), rng.randrange(2)))
+        sim.lines += ['scan 1', 'count 1', 'close 1', 'gcwait', 'shutdown']
+        return sim.lines
     churn = sorted(set(keys[:4] + rng.sample(keys, nk // 2)))
     if nk <= 40 and rng.random() < 0.6:
         # the key just written is deleted and collected after every single item (conc=1: deterministic order)
